@@ -25,7 +25,8 @@ import FqModel.Bitio
      (-8,0) indexes buf[-1], SeekBits(-3, start) succeeds with position -3, MultiReader passes a negative
      offset on to readers[0]); the model keeps this, the property does not quantify over negative offsets
    * IOReadSeeker.Seek compares the bit position with the byte position and drops buffered bits; on a
-     source whose reads are not byte multiples the byte view is misaligned after seek current/end [qIoSeek]
+     source whose reads are not byte multiples the byte view is misaligned after seek current/end
+     (known finding ioreadseeker-unaligned-seek; the branch raises the flag qIoSeek)
    * IOReader.Read(p) with len(p)=0 never returns while the source is not at EOF (`hang`)
    * progressreadseeker: partitionSize = max(1, …) (fix cb15cea3; before it totalSize 0 divided by zero in Read)
    * os.File.Read(p) with len(p)=0 returns (0,nil) at EOF, bytes.Reader returns (0,EOF)
